@@ -3,19 +3,9 @@
    Tied to the code by the correspondence stream of the C10 check.  Definitions only. *)
 From Coq Require Import List ZArith NArith Bool.
 From Verif Require Import common.Int64 common.Sexp gen.GenArith.
+From Verif Require Export c10.NumRep.
 Import ListNotations.
 Open Scope Z_scope.
-
-(* an integer operand as Go carries it *)
-Inductive num :=
-| NInt (z : Z)            (* int; invariant in_int z *)
-| NBig (z : Z)            (* *big.Int, any magnitude (may be small) *)
-| NLit (t : list N).      (* json.Number holding an integer literal: -?digits *)
-
-Definition lit_value (t : list N) : option Z := parse_Z t.
-
-Definition value (n : num) : option Z :=
-  match n with NInt z => Some z | NBig z => Some z | NLit t => lit_value t end.
 
 (* parseNumber on an integer literal: int when it fits, else *big.Int *)
 Definition norm (n : num) : option num :=
@@ -27,12 +17,6 @@ Definition norm (n : num) : option num :=
   | _ => Some n
   end.
 
-Inductive bres :=
-| BNum (n : num)          (* int or *big.Int result *)
-| BFlt (l r : Z)          (* float division of the two exact operands *)
-| BZeroDiv | BZeroMod
-| BBad.                   (* model precondition violated (not an integer literal) *)
-
 Definition of_res (r : res) : bres :=
   match r with
   | RInt z => BNum (NInt z)
@@ -42,8 +26,6 @@ Definition of_res (r : res) : bres :=
   | RZeroMod => BZeroMod
   | _ => BBad
   end.
-
-Inductive op := OAdd | OSub | OMul | ODiv | OMod.
 
 Definition int_kernel (o : op) : Z -> Z -> res :=
   match o with OAdd => add_int | OSub => sub_int | OMul => mul_int | ODiv => div_int | OMod => mod_int end.
@@ -100,4 +82,3 @@ Definition absn (a : num) : bres :=
 Definition encode_num (n : num) : list N :=
   match n with NInt z => print_Z z | NBig z => print_Z z | NLit t => t end.
 
-Definition bvalue (b : bres) : option Z := match b with BNum n => value n | _ => None end.
